@@ -104,8 +104,12 @@ type Machine struct {
 	queue []*Mutation
 	// queueTick is the number of times the queue has processed an appended
 	// mutation. Starts from [1], for easy comparison with [Result].
-	queueTick   uint64
-	machineTick uint32
+	queueTick uint64
+	// queueTickDone is the queue tick of the last appended mutation which has
+	// been fully processed (queueTick advances already when a mutation is taken
+	// from the queue).
+	queueTickDone uint64
+	machineTick   uint32
 	// queueTicksPending is the part of the queue with queue ticks assigned.
 	queueTicksPending uint64
 	queueToken        atomic.Uint64
@@ -237,9 +241,10 @@ func New(ctx context.Context, schema Schema, opts *Opts) *Machine {
 		handlerTimer: time.NewTimer(24 * time.Hour),
 		whenDisposed: make(chan struct{}),
 		// queue ticks start from 1 to align with the [Result] enum
-		queueTick:  1,
-		pools:      map[string]*atomic.Int32{},
-		poolLimits: map[string]int32{},
+		queueTick:     1,
+		queueTickDone: 1,
+		pools:         map[string]*atomic.Int32{},
+		poolLimits:    map[string]int32{},
 	}
 
 	m.subs = NewSubscriptionManager(m, m.clock, m.is, m.not, m.log)
@@ -705,12 +710,25 @@ func (m *Machine) WhenQueue(tick Result) <-chan struct{} {
 	m.queueMx.Lock()
 	defer m.queueMx.Unlock()
 
-	// finish early
-	if m.queueTick >= uint64(tick) {
+	// finish early, but only for ticks which have been fully processed
+	if m.queueTickDone >= uint64(tick) {
 		return m.subs.Closed
 	}
 
 	return m.subs.WhenQueue(tick)
+}
+
+// queueTickProcessed memorizes that the (appended) mutation has been fully
+// processed.
+func (m *Machine) queueTickProcessed(mut *Mutation) {
+	if mut.QueueTick == 0 {
+		return
+	}
+	m.queueMx.Lock()
+	if mut.QueueTick > m.queueTickDone {
+		m.queueTickDone = mut.QueueTick
+	}
+	m.queueMx.Unlock()
 }
 
 // WhenArgs returns a channel that will be closed when the passed state
@@ -2090,6 +2108,7 @@ func (m *Machine) processQueue() Result {
 		// support for context cancelation
 		if mut.ctx != nil && mut.ctx.Err() != nil {
 			ret = append(ret, Executed)
+			m.queueTickProcessed(mut)
 
 			continue
 		}
@@ -2111,6 +2130,7 @@ func (m *Machine) processQueue() Result {
 		m.timeLast.Store(&t.TimeAfter)
 		m.schemaMx.RUnlock()
 		// TODO assert QueueTick same as mut queue tick?
+		m.queueTickProcessed(mut)
 
 		// parse wait chans
 		if t.Mutation.IsCheck {
